@@ -110,6 +110,26 @@ def gen_content(rng, size=None):
     return bytes([rng.below(256)]) * n
 
 
+ROOTSPELL = True
+_read_traces_raw = read_traces
+
+
+def norm_slashes(p):
+    """`/x//src/a` and `/x/src/a` are one path: roots may be spelled with doubled or trailing slashes."""
+    if not p or "//" not in p and not p.endswith("/"):
+        return p
+    q = re.sub(r"/+", "/", p)
+    return q.rstrip("/") if len(q) > 1 else q
+
+
+def read_traces(prefix):  # noqa: F811 - this module's oracles compare path strings with the roots' canonical spelling
+    tr = _read_traces_raw(prefix)
+    for pid in tr:
+        for e in tr[pid]:
+            e.p1, e.p2 = norm_slashes(e.p1), norm_slashes(e.p2)
+    return tr
+
+
 def gen_case(rng, direction, opts=None):
     """Returns dict(src, dst, flags...). src/dst: rel -> (bytes, (sec, nsec))."""
     opts = opts or {}
@@ -268,6 +288,8 @@ def gen_case(rng, direction, opts=None):
         case["extras"] = extras
         case["dst_symlink"] = r2.chance(1, 8)
         case["src_symlink"] = r2.chance(1, 8)
+        # how the roots are spelled on the command line: a trailing slash on either or both, a doubled slash inside
+        case["rootspell"] = r2.pick([None, None, None, None, "slash", "slash-src", "slash-dst", "dslash"]) if ROOTSPELL else None
     return case
 
 
@@ -383,8 +405,17 @@ class OneWay:
     def argv(self, dry=False, flags=None):
         fl = flags if flags is not None else self.case["flags"]
         d = self.case["direction"]
-        s = self.src if d != "pull" else "vh:" + self.src
-        t = self.dst if d != "push" else "vh:" + self.dst
+        sp = self.case.get("rootspell")
+        ssrc, sdst = self.src, self.dst
+        if sp in ("slash", "slash-src"):
+            ssrc += "/"
+        if sp in ("slash", "slash-dst"):
+            sdst += "/"
+        if sp == "dslash":
+            ssrc = os.path.dirname(ssrc) + "//" + os.path.basename(ssrc)
+            sdst = os.path.dirname(sdst) + "//" + os.path.basename(sdst)
+        s = ssrc if d != "pull" else "vh:" + ssrc
+        t = sdst if d != "push" else "vh:" + sdst
         a = ["sync", "-r", s, t, "--jobs", str(fl.get("jobs", 4))]
         if fl.get("delete"):
             a.append("--delete")
@@ -697,7 +728,7 @@ def sources_read(ow, tr, first_cmd_index=0):
     else:
         for cmd in read_standin_log(ow.sshlog)[first_cmd_index:]:
             if cmd.startswith("cat $'") and cmd.endswith("'"):
-                path = unquote_dollar(cmd[len("cat $'"):-1])
+                path = norm_slashes(unquote_dollar(cmd[len("cat $'"):-1]))
                 if path.startswith(ow.src + "/"):
                     got.add(os.path.relpath(path, ow.src))
     return got
